@@ -61,7 +61,18 @@ def main():
             out["demo_passes_without"] = r0.returncode == 0
             if r0.returncode != 0:
                 out["demo_clean_output"] = (r0.stdout + r0.stderr)[-400:]
-        props = [p for p in a.props.split(",") if p] or [c["property_id"] for c in json.load(open(os.path.join(HERE, "MANIFEST.json")))["checks"]]
+        if a.props == "auto":
+            # the checks of every property anchored in a file the patch touches
+            touched = set(re.findall(r"^\+\+\+ b/(\S+)", open(patch).read(), re.M))
+            props = []
+            for line in open(os.path.join(HERE, "properties.jsonl")):
+                if line.strip():
+                    pr = json.loads(line)
+                    if touched & set(pr["anchors"]["files"]):
+                        props.append(pr["id"])
+            out["props"] = props
+        else:
+            props = [p for p in a.props.split(",") if p] or [c["property_id"] for c in json.load(open(os.path.join(HERE, "MANIFEST.json")))["checks"]]
         env = dict(os.environ, VERIF_REPO=wt, VERIF_EVIDENCE_DIR=os.path.join(wt, ".verif-evidence"), VERIF_REPLAY_DIR=os.path.join(wt, ".verif-replays"))
         fired = {}
         for p in props:
